@@ -191,6 +191,7 @@ impl LogState {
         let mut delay = Duration::from_millis(10);
         let mut was_locked = is_locked(ps, info.as_ref().map(|&(fid, ..)| fid))?;
         let mut line_head = String::new();
+        let mut pending: Vec<u8> = Vec::new();
         let mut width = tty_width();
         loop {
             if f.is_none() {
@@ -210,9 +211,24 @@ impl LogState {
                 // In 'follow' mode, might get a line with no trailing \n
                 // (eg. when ./configure is halfway through a test), which we
                 // deal with below.
-                let mut line = String::new();
-                f.read_line(&mut line)?;
-                line
+                // Script output is bytes, not necessarily UTF-8: a line that
+                // is not (or a character the script has written only half of
+                // so far) must not end the viewer.
+                let mut raw = mem::take(&mut pending);
+                f.read_until(b'\n', &mut raw)?;
+                match String::from_utf8(raw) {
+                    Ok(line) => line,
+                    Err(e) => {
+                        let err = e.utf8_error();
+                        let mut bytes = e.into_bytes();
+                        if err.error_len().is_none() && !bytes.ends_with(b"\n") {
+                            pending = bytes.split_off(err.valid_up_to());
+                            String::from_utf8_lossy(&bytes).into_owned()
+                        } else {
+                            String::from_utf8_lossy(&bytes).into_owned()
+                        }
+                    }
+                }
             } else {
                 String::new()
             };
@@ -401,6 +417,9 @@ impl LogState {
             io::stdout().flush()?;
             eprint!("\r{:<width$.width$}\r", "", width = width);
             self.status = String::new();
+        }
+        if !pending.is_empty() {
+            line_head.push_str(&String::from_utf8_lossy(&pending));
         }
         if !line_head.is_empty() {
             // partial line never got terminated
